@@ -5,7 +5,7 @@
 From Coq Require Import Permutation.
 From AV Require Import Base.Bytes Base.Outcome Hash.HashModel Tree.Heap Tree.Ops Tree.Script Tree.Load Tree.MergeSpec
   Tree.MergePure Tree.LoadProofsBase Tree.LoadProofs Tree.LoadEffects Tree.LoadRefineBase Tree.LoadRefineHeap
-  Tree.LoadRefineMain Tree.LoadRefineTop.
+  Tree.LoadRefineMain Tree.LoadRefineTop Tree.LoadResidue.
 From AV Require Xml.Lexer Xml.Parser.
 Open Scope string_scope.
 Open Scope list_scope.
@@ -270,7 +270,7 @@ Qed.
 Definition IdxNames (S : list (list N * N)) (w : world) (m : N) : Prop :=
   exists x, nth_opt (w_models w) (N.to_nat m) = Some x /\
     forall key e, assoc_get key (m_idents x) = Some e ->
-      e < w_next w /\ forall en, w_nodes w e = Some en -> In (key, n_name en) S.
+      e < w_next w /\ exists en, w_nodes w e = Some en /\ In (key, n_name en) S.
 Definition Functional (S : list (list N * N)) : Prop := forall k n n', In (k, n) S -> In (k, n') S -> n = n'.
 
 (* a recorded entry whose position denotes a node with the recorded name *)
@@ -324,8 +324,8 @@ Proof.
       * intros y Hy. apply HinS. right. exact Hy.
       * exists x'. split; [exact Hx1|]. intros key' e Hg. unfold x' in Hg. cbn [m_idents set_idents] in Hg.
         destruct (list_eq_dec N.eq_dec key' key) as [->|Hne].
-        -- rewrite assoc_get_ins_eq in Hg. injection Hg as <-. split; [exact Hb|]. intros en0 He0. cbn [w_nodes w1] in He0.
-           rewrite Hn in He0. injection He0 as <-. apply (HinS (key, p, n_name n) (or_introl eq_refl)).
+        -- rewrite assoc_get_ins_eq in Hg. injection Hg as <-. split; [exact Hb|]. exists n. split; [exact Hn|].
+           apply (HinS (key, p, n_name n) (or_introl eq_refl)).
         -- rewrite assoc_get_ins_neq in Hg by exact Hne. apply (HIx key' e Hg).
       * exists w'. split; [exact E|]. split; [exact HI'|]. eapply MOnly_trans; [|exact M'].
         repeat split; auto. intros y Hy. rewrite Hx in Hy. injection Hy as <-. exists x'. split; [exact Hx1|]. split; reflexivity.
@@ -377,3 +377,143 @@ Proof.
   { rewrite A2 by (unfold w1, i; cbn; lia). unfold w1, i. cbn [w_nodes]. rewrite upd_eq. eauto. }
   destruct Hn as (n & Hn). unfold wbind at 1. rewrite (modify_node_wupd i _ w2 n Hn). eexists _, _. reflexivity.
 Qed.
+
+(* ------------------------------------------------------------------ names are kept by the stages *)
+Definition NamesKept (w w' : world) : Prop :=
+  w_next w' = w_next w /\ forall i n, w_nodes w i = Some n -> exists n', w_nodes w' i = Some n' /\ n_name n' = n_name n.
+Lemma NamesKept_eff nf w w' : WorldEff nf w w' -> NamesKept w w'.
+Proof.
+  intros (E1 & _ & _ & E4). split; [exact E1|]. intros i n Hn. specialize (E4 i). rewrite Hn in E4.
+  destruct (w_nodes w' i) as [n'|]; [|contradiction]. exists n'. split; [reflexivity|apply E4].
+Qed.
+Lemma EntryOK_kept w w' t y : NamesKept w w' -> EntryOK w t y -> EntryOK w' t y.
+Proof.
+  intros (K1 & K2) (i & n & H1 & H2 & H3 & H4). destruct (K2 i n H2) as (n' & Hn' & En').
+  exists i, n'. repeat split; auto; [congruence|lia].
+Qed.
+Lemma IdxNames_kept S w w' m x x' :
+  NamesKept w w' -> nth_opt (w_models w) (N.to_nat m) = Some x -> nth_opt (w_models w') (N.to_nat m) = Some x' ->
+  m_idents x' = m_idents x -> IdxNames S w m -> IdxNames S w' m.
+Proof.
+  intros (K1 & K2) Hx Hx' Ei (x0 & Hx0 & HI). rewrite Hx in Hx0. injection Hx0 as <-.
+  exists x'. split; [exact Hx'|]. intros key e Hg. rewrite Ei in Hg. destruct (HI key e Hg) as (Hb & en & Ee & Hin).
+  split; [lia|]. destruct (K2 e en Ee) as (n' & Hn' & En'). exists n'. split; [exact Hn'|]. rewrite En'. exact Hin.
+Qed.
+
+(* ------------------------------------------------------------------ load_parsed, forwards *)
+Section Total.
+Variable T : tables.
+Variables LATEST defref : N.
+
+Lemma load_parsed_fwd m filename root st w t w1 x :
+  install PNone root w = Val (OK t, w1) -> nth_opt (w_models w) (N.to_nat m) = Some x ->
+  overlap_check w1 x t (rev (Parser.p_idents st)) [] = Val false ->
+  load_parsed T LATEST defref m filename root st w =
+  load_tail m (N.of_nat (List.length (w_files w))) (w_next w) t st
+            (stage_of T LATEST defref m x (it_id t) (N.of_nat (List.length (w_files w))))
+            (mkWorld (w_nodes w1) (w_next w1)
+                     (w_files w1 ++ [mkFile m filename (Parser.p_version st) (Parser.p_standalone st)]) (w_models w1)).
+Proof.
+  intros H1 Hx Hov.
+  pose proof (above_install (w_next w) _ _ _ _ _ (N.le_refl _) H1) as (_ & _ & _ & A4).
+  unfold load_parsed. unfold wbind at 1. cbn [wget]. unfold wbind at 1. rewrite H1.
+  unfold wbind at 1. cbn [wget]. unfold wbind at 1. unfold get_model at 1. rewrite A4, Hx.
+  rewrite wbind_wl, Hov. cbv iota. unfold wbind at 1. cbn [wput]. unfold wbind at 1. unfold get_model at 1.
+  cbn [w_models]. rewrite Hx. reflexivity.
+Qed.
+
+Lemma kill_total base keep w : exists w', kill_unreachable base keep w = Val (OK tt, w').
+Proof. unfold kill_unreachable. eexists. reflexivity. Qed.
+
+(* the part of a load after the stage returns, and the index invariant holds again *)
+Lemma load_tail_total S m fid base t st stage w wS taS files en :
+  stage w = Val (OK tt, wS) ->
+  ModelTree wS m taS files -> IdxNames S wS m ->
+  rev (Parser.p_idents st) = map fst en -> Forall (EntryOK wS t) en -> (forall y, In y en -> In (fst (fst y), snd y) S) ->
+  (forall y, In y (rev (Parser.p_refs st)) -> it_at t (snd y) <> None) ->
+  exists w', load_tail m fid base t st stage w = Val (OK fid, w') /\ IdxNames S w' m.
+Proof.
+  intros Hstage ((x & Hx & Hroot & Hfiles) & HA & Hnd & Hb) HI Hen HE HinS Hrefs.
+  unfold load_tail. unfold wbind at 1. unfold wcatch. unfold wbind at 1. rewrite Hstage.
+  rewrite Hen. destruct (fill_identifiables_ok S m t en wS HE HinS HI) as (wa & Ea & Ia & Ma).
+  unfold wbind at 1. rewrite Ea.
+  destruct (fill_references_ok S m t (rev (Parser.p_refs st)) wa Hrefs Ia) as (wb & Eb & Ib & Mb).
+  unfold wbind at 1. rewrite Eb.
+  destruct Ib as (xb & Hxb & HIb).
+  rewrite (modify_model_fwd m _ wb xb Hxb).
+  set (x4 := set_mfiles xb (m_files xb ++ [fid])).
+  set (w4 := mkWorld (w_nodes wb) (w_next wb) (w_files wb) (list_set (w_models wb) (N.to_nat m) x4)).
+  assert (Hx4 : nth_opt (w_models w4) (N.to_nat m) = Some x4) by (eapply list_set_nth_eq; exact Hxb).
+  pose proof (MOnly_trans _ _ _ _ Ma Mb) as (B1 & B2 & B3 & B4).
+  destruct (B4 x Hx) as (xb' & Hxb' & Er & Ef). rewrite Hxb in Hxb'. injection Hxb' as <-.
+  unfold wbind at 1. unfold get_model at 1. rewrite Hx4. unfold wbind at 1. cbn [wget].
+  assert (HA4 : AbsA w4 taS) by (apply (AbsA_frame' taS wS w4); [intros i _; cbn [w_nodes w4]; rewrite B1; reflexivity|exact HA]).
+  assert (Hb4 : forall i, In i (aids taS) -> i < w_next w4) by (intros i Hi; cbn [w_next w4]; rewrite B2; apply Hb; exact Hi).
+  pose proof (adepth_fuel taS w4 Hnd Hb4) as Hfuel.
+  assert (Er4 : m_root x4 = a_id taS) by (unfold x4; cbn; congruence). rewrite Er4.
+  unfold wbind at 1. rewrite (dfs_abs (fuel_of w4) taS w4) by (auto; lia).
+  destruct (kill_total base (aids taS) w4) as (w5 & E5). unfold wbind at 1. rewrite E5.
+  exists w5. split; [reflexivity|].
+  apply kill_unreachable_eff in E5 as (_ & (K1 & K2 & K3 & _ & K5)).
+  exists x4. split; [rewrite K3; exact Hx4|]. intros key e Hg. unfold x4 in Hg. cbn [m_idents set_mfiles] in Hg.
+  destruct (HIb key e Hg) as (Hbe & en0 & He0 & Hin0). split; [rewrite K1; exact Hbe|].
+  destruct (K5 e) as [E|(n & Hn & Hk)].
+  - exists en0. split; [rewrite E; exact He0|exact Hin0].
+  - cbn [w_nodes w4] in Hn. rewrite He0 in Hn. injection Hn as <-. exists (kill en0). split; [exact Hk|exact Hin0].
+Qed.
+
+(* the parser state records the named elements and the references of the tree (MergeSpec.pstate_of does) *)
+Definition StOf (st : Parser.pstate) (root : Parser.etree) : Prop :=
+  Parser.p_idents st = rev (idents_of T [] [] root) /\ Parser.p_refs st = rev (refs_of T [] root).
+Definition NamesIn (S : list (list N * N)) (root : Parser.etree) : Prop :=
+  forall y, In y (enames T [] [] root) -> In (fst (fst y), snd y) S.
+Definition KeysNoDup (root : Parser.etree) : Prop := NoDup (map (fun y => fst (fst y)) (enames T [] [] root)).
+
+(* install, overlap check, registration of the file: the load continues with load_tail *)
+Lemma load_parsed_to_tail S m filename root st w x :
+  nth_opt (w_models w) (N.to_nat m) = Some x -> IdxNames S w m -> Functional S ->
+  StOf st root -> NamesIn S root -> KeysNoDup root ->
+  exists t w1 tb,
+    install PNone root w = Val (OK t, w1) /\ above (w_next w) w w1 /\
+    AbsA w1 tb /\ erase tb = htree_of_etree root /\ a_id tb = w_next w /\ it_id t = w_next w /\
+    (forall i, In i (aids tb) -> w_next w <= i < w_next w1) /\ NoDup (aids tb) /\ a_local tb = [] /\
+    let fid := N.of_nat (List.length (w_files w)) in
+    let w1' := mkWorld (w_nodes w1) (w_next w1)
+                       (w_files w1 ++ [mkFile m filename (Parser.p_version st) (Parser.p_standalone st)]) (w_models w1) in
+    load_parsed T LATEST defref m filename root st w =
+      load_tail m fid (w_next w) t st (stage_of T LATEST defref m x (it_id t) fid) w1' /\
+    IdxNames S w1' m /\ Forall (EntryOK w1' t) (enames T [] [] root) /\
+    rev (Parser.p_idents st) = map fst (enames T [] [] root) /\
+    (forall y, In y (rev (Parser.p_refs st)) -> it_at t (snd y) <> None).
+Proof.
+  intros Hx HI HS (Hst1 & Hst2) HN HK.
+  destruct (install_total root PNone w) as (t & w1 & H1).
+  destruct (install_abs _ _ _ _ _ H1) as (tb & HB & Eb & Eidb & Eitb & Hrb & Hndb & Hlocb).
+  pose proof (install_itok _ _ _ _ _ H1) as HIt.
+  pose proof (above_install (w_next w) _ _ _ _ _ (N.le_refl _) H1) as A1. pose proof A1 as (A11 & A12 & A13 & A14).
+  exists t, w1, tb. split; [exact H1|]. split; [exact A1|]. split; [exact HB|]. split; [exact Eb|]. split; [exact Eidb|].
+  split; [exact Eitb|]. split; [exact Hrb|]. split; [exact Hndb|]. split; [exact Hlocb|]. cbv zeta.
+  assert (HI1 : IdxNames S w1 m).
+  { destruct HI as (x0 & Hx0 & HI0). exists x0. split; [rewrite A14; exact Hx0|]. intros key e Hg.
+    destruct (HI0 key e Hg) as (Hb & en & He & Hin). split; [lia|]. exists en. split; [rewrite A12 by exact Hb; exact He|exact Hin]. }
+  assert (HE1 : Forall (EntryOK w1 t) (enames T [] [] root)).
+  { apply Forall_forall. intros [[key p] nm] Hy. destruct (enames_esub T root [] [] key p nm Hy) as (q & c & Ep & Es & En).
+    cbn [rev app] in Ep. subst q. destruct (ItOK_at _ w1 p t root c HIt Es) as (i & n & Hat & Hn & Enm & Hb).
+    exists i, n. cbn [fst snd]. repeat split; auto. congruence. }
+  assert (Hid : rev (Parser.p_idents st) = map fst (enames T [] [] root)).
+  { rewrite Hst1, rev_involutive, enames_idents. reflexivity. }
+  assert (Hov : overlap_check w1 x t (rev (Parser.p_idents st)) [] = Val false).
+  { rewrite Hid. apply (overlap_false S w1 x t HS); auto.
+    destruct HI1 as (x1 & Hx1 & HI1'). rewrite A14, Hx in Hx1. injection Hx1 as <-.
+    intros key e en Hg He. destruct (HI1' key e Hg) as (_ & en' & He' & Hin). rewrite He in He'. injection He' as <-. exact Hin. }
+  split; [apply (load_parsed_fwd m filename root st w t w1 x H1 Hx Hov)|].
+  split.
+  { destruct HI1 as (x1 & Hx1 & HI1'). exists x1. split; [exact Hx1|]. exact HI1'. }
+  split.
+  { eapply Forall_impl; [|exact HE1]. intros y (i & n & H2 & H3 & H4 & H5). exists i, n. auto. }
+  split; [exact Hid|].
+  intros [r p] Hy. rewrite Hst2, rev_involutive in Hy. destruct (refs_esub T root [] r p Hy) as (q & c & Ep & Es).
+  cbn [rev app] in Ep. subst q. destruct (ItOK_at _ w1 p t root c HIt Es) as (i & n & Hat & _). cbn [snd]. rewrite Hat. discriminate.
+Qed.
+
+End Total.
